@@ -292,6 +292,8 @@ let run_compl _u line =
   | "path" :: layout :: lines ->
     let root = parse_layout layout in
     String.concat " ; " (List.map (fun l ->
+        (* `<before>|<after>`: only the text before the cursor takes part (complete_path slices the line at pos) *)
+        let l = (match String.index_opt l '|' with Some i -> String.sub l 0 i | None -> l) in
         let (start, cands) = complete_path root (parse_str l) in
         let cands = List.sort (fun (d1, _) (d2, _) -> utf8_compare d1 d2) cands in
         Printf.sprintf "%d %s" (int_of_nat start)
